@@ -26,6 +26,13 @@ XKey(x) == <<x.from, x.to, x.amt, x.ok>>
 NotFunds(x) == x.kind # "funds"
 OkXfers(xs) == LET f == SelectSeq(xs, NotFunds) IN [i \in 1..Len(f) |-> XKey(f[i])]
 
+\* the call sequence of a transaction, entry by entry (contract, message, sender, execute / reply,
+\* outcome of the entry itself, injected failure): what the small-step VM (VmStep.tla) emits per micro-step
+CallKey(c) == <<c.n, c.to, c.from, c.entry, c.msg, c.ok, c.injected>>
+\* (the first entry is the transaction itself: its name is the harness's operation name, not compared)
+CallKeys(cs) == [i \in 1..Len(cs) |-> IF i = 1 THEN <<cs[i].n, cs[i].to, cs[i].from, cs[i].entry, "", cs[i].ok, cs[i].injected>>
+                                       ELSE CallKey(cs[i])]
+
 EngCore(E) == [cfg |-> E.cfg, st |-> E.st, pauser |-> E.pauser, whitelist |-> E.whitelist,
                tmp |-> E.tmp, pos |-> E.pos, vmap |-> E.vmap]
 
@@ -146,6 +153,7 @@ DriftOf(S, e, T) ==
        IN IF r.err = "over" THEN {}     \* TLC's 32-bit integers could not hold an intermediate: no verdict
           ELSE IF r.ok # e.res.ok THEN {IF r.ok THEN "spec_ok_impl_failed" ELSE "spec_failed_impl_ok"}
           ELSE IF ~r.ok THEN (IF r.ctx.fired # e.fired THEN {"fired"} ELSE {})
+                             \cup (IF e.res.err # "panic" /\ CallKeys(r.ctx.calls) # CallKeys(e.calls) THEN {"calls"} ELSE {})
           ELSE (IF M.vamm # T.vamm THEN {"vamm"} ELSE {})
                \cup (IF EngCore(M.eng) # EngCore(T.eng)
                      THEN (IF M.eng.pos # T.eng.pos THEN {"eng.pos"} ELSE {})
@@ -163,4 +171,5 @@ DriftOf(S, e, T) ==
                \cup (IF M.blk # T.blk THEN {"blk"} ELSE {})
                \cup (IF OkXfers(r.ctx.xfers) # OkXfers(e.xfers) THEN {"xfers"} ELSE {})
                \cup (IF r.ctx.cnt # (IF e.calls = <<>> THEN 0 ELSE e.calls[Len(e.calls)].n) THEN {"ncalls"} ELSE {})
+               \cup (IF CallKeys(r.ctx.calls) # CallKeys(e.calls) THEN {"calls"} ELSE {})
 =============================================================================
